@@ -15,6 +15,7 @@ EXTENDS Integers, Sequences, FiniteSets, TLC
 CONSTANTS Actors, Parent, Roots, KidsOf, MaxRestarts,
           NMsg, SendTo, Toks, TokTarget, TokGraceful,
           Faults, IFaults, CrashKinds, Batch, Eager, MaxDup,
+          Succ,      \* actor -> the successor it spawns under its own id from inside its final Stopped handler ("none": nobody)
           FixD1, FixD2, FixD3, FixD4, FixD5, FixD12, FixD13, FixD14
 
 VARIABLES reg, inc, restarts, status, ring, mbuf, closed, children, ex, tok,
@@ -61,6 +62,9 @@ Entry(a, kind, id, mw) == [a |-> a, inc |-> inc[a], kind |-> kind, id |-> id, mw
 (* c: "none" = the handler returns, "plain" = it panics with an ordinary value, "internal" = it panics with an
    *InternalError (restarted without touching the restart budget) *)
 PanicKinds == {"none", "plain", "internal"}
+PredOf(b) == {a \in Actors : Succ[a] = b}
+Succeeded(a) == Succ[a] # "none" /\ Succ[a] \in spawned      \* the id now belongs to the successor
+
 CanCrash(kind, c) == c = "none" \/ (kind \in CrashKinds /\ IF c = "plain" THEN faults > 0 ELSE ifaults > 0)
 Spend(c) == /\ faults' = IF c = "plain" THEN faults - 1 ELSE faults
             /\ ifaults' = IF c = "internal" THEN ifaults - 1 ELSE ifaults
@@ -78,6 +82,7 @@ Blocked(a) ==
   \/ e.pc = "none"
   \/ e.pc = "cl_wait" /\ tok[PTok(Head(e.snap))] # "done"
   \/ e.pc = "spawnwait" /\ Head(e.todo) \notin spret
+  \/ e.pc = "cl_succwait" /\ Succ[a] \notin spret
 InternalEnabled(a) == ~AtGate(a) /\ ~Blocked(a)
 Settled == \A a \in Actors : ~InternalEnabled(a)
 EnvOK == ~dead /\ ~overlap /\ (Eager => Settled)
@@ -109,7 +114,7 @@ Spawn(r) ==
 (* Engine.Spawn with an id that was spawned before: a duplicate while the actor is registered (Registry.add publishes
    ActorDuplicateIdEvent and starts nothing); a fresh process once the old one has completely gone *)
 SpawnAgain(r) ==
-  /\ EnvOK /\ r \in Roots /\ r \in spawned /\ dups < MaxDup
+  /\ EnvOK /\ r \in Roots /\ r \in spawned /\ dups < MaxDup /\ Succ[r] = "none"
   /\ dups' = dups + 1
   /\ IF reg[r]
      THEN /\ events' = Append(events, Ev("DuplicateId", r, 0))
@@ -124,7 +129,7 @@ SpawnAgain(r) ==
   /\ UNCHANGED <<inc, tok, faults, ifaults, nextMsg, spawned, spret, dead, overlap, log, accepted, sentBefore, acted, done, issued>>
 
 Send(a) ==
-  /\ EnvOK /\ a \in SendTo /\ a \in spawned /\ nextMsg <= NMsg
+  /\ EnvOK /\ a \in SendTo /\ a \in spawned /\ nextMsg <= NMsg /\ ~Succeeded(a)
   /\ EnqEffect(a, User(nextMsg), ring, status, ex, events)
   /\ accepted' = IF reg[a] THEN [accepted EXCEPT ![a] = @ \cup {nextMsg}] ELSE accepted
   /\ nextMsg' = nextMsg + 1
@@ -132,6 +137,7 @@ Send(a) ==
 
 StopReq(t) ==
   /\ EnvOK /\ t \in Toks /\ tok[t] = "unused"
+  /\ ~Succeeded(TokTarget[t]) /\ (PredOf(TokTarget[t]) = {} \/ TokTarget[t] \in spawned)
   /\ LET a == TokTarget[t] IN
      /\ sentBefore' = [sentBefore EXCEPT ![t] = accepted[a]]
      /\ EnqEffect(a, Pill(t, TokGraceful[t]), ring, status, ex, events)
@@ -334,14 +340,27 @@ ClStop(a) ==
   /\ UNCHANGED <<inc, restarts, ring, mbuf, children, tok, faults, ifaults, nextMsg, spawned, spret, dead, overlap, dups,
                  log, events, accepted, sentBefore, acted, done, issued>>
 
+(* the final Stopped.  A receiver may spawn a successor under its own id from inside this handler (the id is free:
+   the process is unregistered already); Spawn returns once the successor has handled Started *)
 ClStopped(a, c) ==
   /\ GateOK /\ ex[a].pc = "cl_stopped" /\ CanCrash("Stopped", c)
   /\ log' = Append(log, Entry(a, "Stopped", 0, TRUE))
   /\ Spend(c)
-  /\ IF c # "none" /\ ~FixD14 THEN dead' = TRUE /\ ExStep(a, NoEx)
-                               ELSE UNCHANGED dead /\ ExStep(a, [ex[a] EXCEPT !.pc = "cl_done"])
-  /\ UNCHANGED <<reg, inc, restarts, status, ring, mbuf, closed, children, tok, nextMsg, spawned, spret, overlap, dups,
+  /\ IF c # "none" /\ ~FixD14
+     THEN dead' = TRUE /\ ExStep(a, NoEx) /\ UNCHANGED <<reg, spawned>>
+     ELSE IF c = "none" /\ Succ[a] # "none" /\ Succ[a] \notin spawned
+     THEN /\ UNCHANGED dead /\ Alive
+          /\ reg' = [reg EXCEPT ![Succ[a]] = TRUE] /\ spawned' = spawned \cup {Succ[a]}
+          /\ ex' = [ex EXCEPT ![a] = [ex[a] EXCEPT !.pc = "cl_succwait"],
+                              ![Succ[a]] = [NoEx EXCEPT !.pc = "prod", !.base = "spawn"]]
+     ELSE UNCHANGED <<dead, reg, spawned>> /\ ExStep(a, [ex[a] EXCEPT !.pc = "cl_done"])
+  /\ UNCHANGED <<inc, restarts, status, ring, mbuf, closed, children, tok, nextMsg, spret, overlap, dups,
                  events, accepted, sentBefore, acted, done, issued>>
+
+ClSuccWait(a) ==
+  /\ ex[a].pc = "cl_succwait" /\ Succ[a] \in spret
+  /\ ExStep(a, [ex[a] EXCEPT !.pc = "cl_done"])
+  /\ UNCHANGED Frame
 
 ClDone(a) ==
   /\ ex[a].pc = "cl_done"
@@ -421,6 +440,7 @@ Next == \/ \E r \in Roots : Spawn(r)
         \/ \E a \in Actors : ClWait(a)
         \/ \E a \in Actors : ClStop(a)
         \/ \E a \in Actors, c \in PanicKinds : ClStopped(a, c)
+        \/ \E a \in Actors : ClSuccWait(a)
         \/ \E a \in Actors : ClDone(a)
         \/ \E a \in Actors : AfterReplay(a)
         \/ \E a \in Actors : Open(a)
